@@ -7,7 +7,7 @@
     NOT decided: that a crossing which appears and disappears within one step is seen (the code documents it is not);
     accuracy of the interpolated trigger values (e is an arbitrary function here); binary64 rounding. *)
 From Coq Require Import ZArith NArith QArith Reals List Bool Sorting.Sorted Sorting.Permutation.
-Require Import Num C22_Model C22_Proofs C22_Loc C22_Order C22_TS.
+Require Import Num C22_Model C22_Proofs C22_Loc C22_Order C22_TS C22_Examples.
 Import ListNotations.
 
 (** ------------------------------------------------------------------------------------------ A: tables *)
@@ -102,6 +102,22 @@ Theorem C22_event_phase_terminates info accw e tReport mw n t0 t1 e0 e1 s :
 Proof. intros Hm Hw. exact (event_phase_terminates info accw Hm e tReport mw Hw n t0 t1 e0 e1 s). Qed.
 Print Assumptions C22_event_phase_terminates.
 
+(** detection: a trigger whose value changed sign in a monitored direction over the whole step is not skipped -- an
+    event is reported (fuel as in the termination theorem) *)
+Theorem C22_event_detected info accw e tReport mw n t0 t1 e0 e1 :
+  masks_ok info -> 0 < mw -> t0 < t1 -> (9/10)^n * (t1 - t0) <= mw ->
+  (exists i, (i < length e0)%nat /\ seenAt ROps info e0 e1 i <> 0%N) ->
+  exists s tr, event_phase ROps info accw e tReport mw (S (S n)) t0 t1 e0 e1 = Event s tr.
+Proof. intros Hm Hw. exact (event_detected info accw Hm e tReport mw Hw n t0 t1 e0 e1). Qed.
+Print Assumptions C22_event_detected.
+
+(** non-vacuity: the hypotheses of the localisation theorems hold on a concrete step, for every oracle *)
+Theorem C22_ex_event_reported (e:R -> list R) :
+  exists s tr, event_phase ROps ex_info (1/100) e (1/2) (1/1000) 80 0 1 [-1] [2] = Event s tr /\
+               l_tHigh s - l_tLow s <= l_narrowest s /\ ~ (l_tLow s < 1/2 < l_tHigh s) /\ l_cands s <> [].
+Proof. exact (ex_event_reported e). Qed.
+Print Assumptions C22_ex_event_reported.
+
 (** the triggered events are reported in nondecreasing order of estimated time; nothing is lost or added *)
 Theorem C22_triggered_sorted_by_estimate info cs :
   Sorted est_le (triggered_of ROps info cs) /\
@@ -160,6 +176,41 @@ Theorem C22_reporters_called_exactly_at_time S ss thandlers flow cf reportAll ti
      k_time k == a_t (u_ans u) /\ a_status (u_ans u) = ReachedReportTime.
 Proof. exact (reporters_called_exactly_at_time S ss thandlers flow cf reportAll time s orc st s' rest log uses). Qed.
 Print Assumptions C22_reporters_called_exactly_at_time.
+
+(** within one TimeStepper::stepTo the calls of the state-changing handlers (scheduled and triggered) are made at
+    nondecreasing times, and so are the calls of the scheduled reporters.  (Not claimed: the relative order of a reporter
+    call and a handler call -- a triggered handler sees the advanced state at tHigh while a report served next may be at
+    a time inside (tLow,tHigh) when the handler changed nothing; see C19's known finding about report times placed inside
+    a localised window.) *)
+Theorem C22_handlers_in_time_order_partial S ss thandlers flow cf reportAll time s orc st s' rest log uses :
+  ids_disjoint S ss -> ts_t s <= ts_tadv s ->
+  ts_stepTo S cf [ss] thandlers flow reportAll time s orc = TSRet S st s' rest log uses ->
+  (forall u, In u uses -> use_ok u) ->
+  nondecr (htimes S log) /\ nondecr (rtimes S log).
+Proof. exact (handlers_in_time_order S ss thandlers flow cf reportAll time s orc st s' rest log uses). Qed.
+Print Assumptions C22_handlers_in_time_order_partial.
+
+(** a PeriodicEventHandler is only ever called at exact multiples of its interval (exact arithmetic) *)
+Theorem C22_periodic_handler_called_at_multiples S ss thandlers flow cf reportAll time s orc st s' rest log uses interval :
+  ids_disjoint S ss -> 0 < interval ->
+  ts_stepTo S cf [ss] thandlers flow reportAll time s orc = TSRet S st s' rest log uses ->
+  (forall u, In u uses -> use_ok u) ->
+  forall k h, In k log -> k_cause k = CScheduled -> In h (ss_handlers ss) -> h_id h = k_id k ->
+  NoDup (map (@h_id S) (ss_handlers ss)) ->
+  (forall t incl, h_next h t incl = Some (periodic_next interval t incl)) ->
+  exists z:Z, k_time k == inject_Z z * interval.
+Proof. exact (periodic_handler_called_at_multiples S ss thandlers flow cf reportAll time s orc st s' rest log uses interval). Qed.
+Print Assumptions C22_periodic_handler_called_at_multiples.
+
+(** non-vacuity of the time-stepper theorems: a concrete run with 14 integrator answers that all meet [use_ok] *)
+Theorem C22_ex_ts_run :
+  ex_summary (ts_stepTo Q false [ex_ss] ex_th ex_flow false 1 (ts_init Q 0 0) ex_orc) =
+  Some (ReachedReportTime, 0%nat,
+        [(CReport, 1%nat, 0, 0); (CScheduled, 0%nat, 0, 0); (CScheduled, 0%nat, 1#4, 1); (CTriggered, 2%nat, 5#16, 2);
+         (CReport, 1%nat, 1#2, 12); (CScheduled, 0%nat, 1#2, 12); (CScheduled, 0%nat, 3#4, 13); (CReport, 1%nat, 1, 14)],
+        true, 14) /\ ids_disjoint Q ex_ss.
+Proof. exact (conj ex_ts_run ex_ids_disjoint). Qed.
+Print Assumptions C22_ex_ts_run.
 
 (** REFUTED at system level: with two subsystems owning scheduled events, System::Guts::calcTimeOfNextScheduledEventImpl
     AS WRITTEN ([sys_next false]) keeps the ids of a subsystem whose event is LATER than the one found afterwards (the clear()
